@@ -25,6 +25,9 @@ type persistObj struct {
 	equalsTo func(t persistTarget) (bool, error)
 	queries  func() string // canonical answers to a fixed set of queries
 	rawObj   interface{}   // the library object itself
+	// poke applies a fixed continuation of the history to a library object of this kind (the
+	// original and the restored instance must stay indistinguishable under it)
+	poke func(x interface{})
 }
 
 func (o persistObj) raw() interface{} { return o.rawObj }
@@ -114,7 +117,12 @@ func persistBloom(c *Ctx) persistObj {
 		return persistTarget{readFrom: g.ReadFrom, imp: g.Import, export: g.Export, queries: q(g), raw: g}
 	}
 	return persistObj{
-		kind: "bloom", writeTo: f.WriteTo, export: f.Export, fresh: mkTarget, queries: q(f),
+		kind: "bloom", writeTo: f.WriteTo, export: f.Export, fresh: mkTarget, queries: q(f), rawObj: f,
+		poke: func(x interface{}) {
+			g := x.(*gostatix.BloomFilter)
+			g.Insert(pool[0])
+			g.Insert([]byte("poke"))
+		},
 		encLine: func(raw []byte, cnt int64) (string, error) {
 			a, err := bloomAbsMem(f)
 			if err != nil {
@@ -142,8 +150,18 @@ func persistCMSWide(c *Ctx) persistObj {
 func persistCMSDims(c *Ctx, rows, cols uint) persistObj {
 	s, _ := gostatix.NewCountMinSketch(rows, cols)
 	pool := elemPool(c.rng, 8, false)
-	for i := 0; i < c.rng.Intn(10); i++ {
-		s.Update(pool[c.rng.Intn(len(pool))], cmsCounts[c.rng.Intn(len(cmsCounts))])
+	if c.rng.Intn(4) == 0 {
+		// a sketch that only ever received merges (never an Update of its own)
+		src, _ := gostatix.NewCountMinSketch(rows, cols)
+		for i := 0; i < 1+c.rng.Intn(6); i++ {
+			src.Update(pool[c.rng.Intn(len(pool))], cmsCounts[c.rng.Intn(len(cmsCounts))])
+		}
+		s.Merge(src)
+		c.branch("cms-merge-only")
+	} else {
+		for i := 0; i < c.rng.Intn(10); i++ {
+			s.Update(pool[c.rng.Intn(len(pool))], cmsCounts[c.rng.Intn(len(cmsCounts))])
+		}
 	}
 	q := func(g *gostatix.CountMinSketch) func() string {
 		return func() string {
@@ -162,6 +180,11 @@ func persistCMSDims(c *Ctx, rows, cols uint) persistObj {
 	}
 	return persistObj{
 		kind: "cms", writeTo: s.WriteTo, export: s.Export, fresh: mkTarget, queries: q(s), rawObj: s,
+		poke: func(x interface{}) {
+			g := x.(*gostatix.CountMinSketch)
+			g.Update(pool[0], 3)
+			g.Update([]byte("poke"), 1)
+		},
 		encLine: func(raw []byte, cnt int64) (string, error) {
 			d, err := parseCMS(s.Export())
 			if err != nil {
@@ -198,6 +221,11 @@ func persistHLLSize(c *Ctx, m uint64) persistObj {
 	}
 	return persistObj{
 		kind: "hll", writeTo: h.WriteTo, export: h.Export, fresh: mkTarget, queries: q(h), rawObj: h,
+		poke: func(x interface{}) {
+			g := x.(*gostatix.HyperLogLog)
+			g.Update(pool[0])
+			g.Update([]byte("poke"))
+		},
 		encLine: func(raw []byte, cnt int64) (string, error) {
 			d, err := parseHLL(h.Export())
 			if err != nil {
@@ -273,7 +301,19 @@ func persistCuckoo(c *Ctx) persistObj {
 		return persistTarget{readFrom: g.ReadFrom, imp: g.Import, export: g.Export, queries: q(g), raw: g}
 	}
 	return persistObj{
-		kind: "cuckoo", writeTo: f.WriteTo, export: f.Export, fresh: mkTarget, queries: q(f),
+		kind: "cuckoo", writeTo: f.WriteTo, export: f.Export, fresh: mkTarget, queries: q(f), rawObj: f,
+		poke: func(x interface{}) {
+			g := x.(*gostatix.CuckooFilter)
+			for _, e := range pool[:min(2, len(pool))] {
+				// re-insertion only into the slot just freed: no relocation, nothing random
+				if g.Remove(e) {
+					g.Insert(e, false)
+				}
+			}
+			if len(inserted) > 0 {
+				g.Remove(inserted[0])
+			}
+		},
 		encLine: func(raw []byte, cnt int64) (string, error) {
 			d, err := parseCuckoo(f.Export())
 			if err != nil {
@@ -322,7 +362,14 @@ func persistTopKWith(c *Ctx, last []byte) persistObj {
 		return persistTarget{readFrom: g.ReadFrom, imp: g.Import, export: g.Export, queries: q(g), raw: g}
 	}
 	return persistObj{
-		kind: "topk", writeTo: t.WriteTo, export: t.Export, fresh: mkTarget, queries: q(t),
+		kind: "topk", writeTo: t.WriteTo, export: t.Export, fresh: mkTarget, queries: q(t), rawObj: t,
+		poke: func(x interface{}) {
+			g := x.(*gostatix.TopK)
+			g.Insert(pool[0], 1)
+			g.Insert(pool[1], 2)
+			g.Insert([]byte("other"), 1)
+			g.Insert(pool[0], 1)
+		},
 		encLine: func(raw []byte, cnt int64) (string, error) {
 			d, err := parseTopK(t.Export())
 			if err != nil {
@@ -415,7 +462,7 @@ func persistCase(c *Ctx, o persistObj, second *persistObj) {
 	rkind := c.rng.Intn(4)
 	c.branch("reader-" + readerKindName(rkind))
 	t := o.fresh()
-	if c.rng.Intn(2) == 0 {
+	if c.rep.Cases%2 == 0 {
 		t.queries() // the receiving instance has been queried before (anything it cached is now stale)
 	}
 	var rn int64
@@ -451,6 +498,19 @@ func persistCase(c *Ctx, o persistObj, second *persistObj) {
 	}
 	// a restored sketch is as good a Merge argument as the one that was written
 	persistMergeRestored(c, o, t, replay)
+	// ... and the history goes on from the restored instance as from the original (the receiving
+	// instance had a life before ReadFrom: nothing of it may survive)
+	if o.poke != nil && o.raw() != nil && c.rep.Cases%3 != 0 {
+		r1 := safely(func() { o.poke(o.raw()) })
+		r2 := safely(func() { o.poke(t.raw) })
+		pe1, _ := o.export()
+		pe2, _ := t.export()
+		if r1.panicked != r2.panicked || o.queries() != t.queries() || !bytes.Equal(pe1, pe2) {
+			kp := map[string][]string{"bloom": {"C01"}, "cuckoo": {"C02", "C13"}, "cms": {"C03"}, "hll": {"C06"}, "topk": {"C04"}}[o.kind]
+			c.fail(append(append([]string{}, props...), kp...), o.kind+"-diverges-after-restore", fmt.Sprintf("%s: the same further operations applied to the original and to the instance restored from its image give different structures: %s vs %s (panics %v/%v)", o.kind, o.queries(), t.queries(), r1.panicked, r2.panicked), replay)
+		}
+		c.branch("continued-after-restore")
+	}
 	// back to back with a second structure in one stream
 	if second != nil {
 		var b2 bytes.Buffer
@@ -483,7 +543,7 @@ func persistCase(c *Ctx, o persistObj, second *persistObj) {
 		step = len(raw) / 1500
 	}
 	emitted := 0
-	for cut := 0; cut < len(raw); cut += step {
+	for _, cut := range cutPoints(len(raw), step) {
 		t := o.fresh()
 		var rerr error
 		if cut%16 == 0 {
@@ -514,7 +574,7 @@ func persistCase(c *Ctx, o persistObj, second *persistObj) {
 	if len(doc) > 3000 {
 		jstep = len(doc) / 1500
 	}
-	for cut := 0; cut < len(doc); cut += jstep {
+	for _, cut := range cutPoints(len(doc), jstep) {
 		t := o.fresh()
 		var ierr error
 		res := safely(func() { ierr = t.imp(doc[:cut]) })
@@ -525,6 +585,18 @@ func persistCase(c *Ctx, o persistObj, second *persistObj) {
 		}
 	}
 	c.sample(map[string]interface{}{"kind": o.kind, "image_bytes": len(raw), "json_bytes": len(doc)})
+}
+
+// cutPoints: every step-th strict prefix length of an n-byte image, and all of the first and the
+// last 80 (headers and trailers are where a decoder's length bookkeeping ends)
+func cutPoints(n, step int) []int {
+	var out []int
+	for cut := 0; cut < n; cut++ {
+		if cut%step == 0 || cut < 80 || cut >= n-80 {
+			out = append(out, cut)
+		}
+	}
+	return out
 }
 
 // ---- stream kinds.  bytes.Reader is an io.ByteReader/io.Seeker that always fills the buffer; files,
